@@ -631,4 +631,122 @@ theorem getExport_sound {v : View} {q : Query} {x : Export} (h : getExport v q =
   | ordinal o => exact ordinal_sound hw h
   | «import» i => exact import_sound hw h
 
+/-! ### linear search -/
+
+/-- the name of hint `h` as bytes (the model's read, abstracted) -/
+def By.nameStr (y : By) (h : Nat) : Out (List Nat) := mapOut (cstrBytes y.b) (y.nameOfHint h)
+
+theorem nameStr_eq_spec (y : By) (h : Nat) :
+    y.nameStr h = Spec.nameOfHint (tablesOf y) (cstrOf y.exp.v) h := nameOfHint_abs y h
+
+theorem nameStr_ok_lt {y : By} {h : Nat} {s : List Nat} (hs : y.nameStr h = .ok s) : h < y.names.cnt := by
+  unfold By.nameStr at hs
+  obtain ⟨c, hc, _⟩ := mapOut_ok_iff.1 hs
+  exact (nameOfHint_sound hc).2
+
+theorem nameLinearLoop_step (y : By) (q : List Nat) (n h : Nat) :
+    y.nameLinearLoop q (n + 1) h =
+      if y.nameStr h = .ok q then y.hint h else y.nameLinearLoop q n (h + 1) := by
+  rw [By.nameLinearLoop]
+  unfold By.nameStr
+  rcases nameOfHint_okOrErr y h with ⟨c, hc⟩ | ⟨e, hc⟩ <;> rw [hc] <;> dsimp only
+  · by_cases he : cstrBytes y.b c = q
+    · have : mapOut (cstrBytes y.b) (Out.ok c) = Out.ok q := by show Out.ok _ = _; rw [he]
+      rw [if_pos he, if_pos this]
+    · have : ¬ mapOut (cstrBytes y.b) (Out.ok c) = Out.ok q := fun h' => he (Out.ok.inj h')
+      rw [if_neg he, if_neg this]
+  · have : ¬ mapOut (cstrBytes y.b) (Out.err e : Out Ref) = Out.ok q := fun h' => by cases h'
+    rw [if_neg this]
+
+theorem nameLinearLoop_none (y : By) (q : List Nat) : ∀ n h0,
+    (∀ h, h0 ≤ h → h < h0 + n → y.nameStr h ≠ .ok q) → y.nameLinearLoop q n h0 = .err .null := by
+  intro n
+  induction n with
+  | zero => intro h0 _; rfl
+  | succ n ih =>
+    intro h0 hne
+    rw [nameLinearLoop_step, if_neg (hne h0 (Nat.le_refl _) (by omega))]
+    exact ih _ (fun h h1 h2 => hne h (by omega) (by omega))
+
+theorem nameLinearLoop_first (y : By) (q : List Nat) : ∀ n h0 h, h0 ≤ h → h < h0 + n →
+    y.nameStr h = .ok q → (∀ h', h0 ≤ h' → h' < h → y.nameStr h' ≠ .ok q) →
+    y.nameLinearLoop q n h0 = y.hint h := by
+  intro n
+  induction n with
+  | zero => intro h0 h h1 h2; omega
+  | succ n ih =>
+    intro h0 h h1 h2 hq hne
+    rw [nameLinearLoop_step]
+    by_cases he : h0 = h
+    · subst he; rw [if_pos hq]
+    · rw [if_neg (hne h0 (Nat.le_refl _) (by omega))]
+      exact ih _ _ (by omega) (by omega) hq (fun h' a b => hne h' (by omega) b)
+
+theorem nameLinearLoop_abs (y : By) (q : List Nat) : ∀ n h0,
+    mapOut (Export.abs y.b) (y.nameLinearLoop q n h0) =
+      match ((List.range' h0 n).filter fun h => Spec.nameOfHint (tablesOf y) (cstrOf y.exp.v) h = .ok q).head? with
+      | none => .err .null
+      | some h => Spec.hint (tablesOf y) (cstrOf y.exp.v) h := by
+  intro n
+  induction n with
+  | zero => intro h0; rfl
+  | succ n ih =>
+    intro h0
+    rw [nameLinearLoop_step, List.range'_succ, List.filter_cons, nameStr_eq_spec]
+    by_cases hq : Spec.nameOfHint (tablesOf y) (cstrOf y.exp.v) h0 = .ok q
+    · rw [if_pos hq, if_pos (by simpa using hq)]
+      exact hint_abs y h0
+    · rw [if_neg hq, if_neg (by simpa using hq)]
+      exact ih _
+
+theorem nameLinear_abs (y : By) (q : List Nat) :
+    mapOut (Export.abs y.b) (y.nameLinear q) = Spec.nameLinear (tablesOf y) (cstrOf y.exp.v) q := by
+  unfold By.nameLinear Spec.nameLinear Spec.hintsOf
+  rw [nameLinearLoop_abs, tablesOf_names_length, List.range_eq_range']
+  rfl
+
+/-! ### reverse lookup -/
+
+theorem position_eq (y : By) (index : Nat) : ∀ n h0,
+    y.position index n h0 = (((List.range' h0 n).map y.idxAt).findIdx? (fun x => x = index)).map (· + h0) := by
+  intro n
+  induction n with
+  | zero => intro h0; rfl
+  | succ n ih =>
+    intro h0
+    rw [By.position, List.range'_succ, List.map_cons, List.findIdx?_cons]
+    by_cases he : y.idxAt h0 = index
+    · simp [he]
+    · rw [if_neg he, ih]
+      simp only [he, decide_false, Bool.false_eq_true, if_false, Option.map_map]
+      congr 1
+      funext x
+      simp only [Function.comp]
+      omega
+
+theorem nameLookup_abs (y : By) (i : Nat) :
+    mapOut (Import.abs y.b) (y.nameLookup i) = Spec.nameLookup (tablesOf y) (cstrOf y.exp.v) i := by
+  unfold By.nameLookup Spec.nameLookup
+  rw [position_eq]
+  have e : (tablesOf y).idx = (List.range' 0 y.idx.cnt).map y.idxAt := by
+    show (List.range y.idx.cnt).map y.idxAt = _
+    rw [List.range_eq_range']
+  rw [e]
+  cases hf : ((List.range' 0 y.idx.cnt).map y.idxAt).findIdx? (fun x => x = i) with
+  | none =>
+    show _ = Out.ok (Spec.Imp.byOrdinal ((i + y.exp.base) % 65536))
+    simp only [Option.map_none, mapOut, Import.abs]
+    congr 2
+    omega
+  | some h =>
+    simp only [Option.map_some, Nat.add_zero]
+    rw [tablesOf_names]
+    by_cases hl : h < y.names.cnt
+    · simp only [hl, if_true]
+      show mapOut _ ((y.exp.v.dervaCStr (.rva (y.nameAt h))).bind _) =
+        mapOut (Spec.Imp.byName h) (mapOut (cstrBytes y.exp.v.b) (y.exp.v.dervaCStr (.rva (y.nameAt h))))
+      cases y.exp.v.dervaCStr (.rva (y.nameAt h)) <;> rfl
+    · simp only [hl, if_false]
+      rfl
+
 end Pelite.Exports
